@@ -11,7 +11,7 @@ CONSTANTS
   Budget = 1
   LateKinds = {"write", "promote", "release"}
   EarlyStop = FALSE
-  MaxDepth = 15
+  MaxDepth = 14
 VIEW View
 SYMMETRY Sym
 CONSTRAINT Bounded
